@@ -263,6 +263,9 @@ func (p *renderState) renderExpression(expr ast.Expression, wrap bool, dot bool)
 			result = `(__str "` + string(p.interpolate(JavaScriptExpression(expr.Value))) + `")`
 			result = strings.Replace(result, `""`, ``, -1)
 			if wrap {
+				if !p.rawmode {
+					result += ` | __pug__html`
+				}
 				result = `{{` + result + `}}`
 			}
 		} else {
@@ -289,6 +292,9 @@ func (p *renderState) renderExpression(expr ast.Expression, wrap bool, dot bool)
 		}
 		result += `)`
 		if wrap {
+			if !p.rawmode {
+				result += ` | __pug__html`
+			}
 			result = `{{` + result + `}}`
 		}
 
@@ -304,6 +310,9 @@ func (p *renderState) renderExpression(expr ast.Expression, wrap bool, dot bool)
 		}
 		result += `)`
 		if wrap {
+			if !p.rawmode {
+				result += ` | __pug__html`
+			}
 			result = `{{` + result + `}}`
 		}
 
@@ -504,6 +513,9 @@ func (p *renderState) renderExpression(expr ast.Expression, wrap bool, dot bool)
 		}
 		result += `)`
 		if wrap {
+			if !p.rawmode {
+				result += ` | __pug__html`
+			}
 			result = `{{` + result + `}}`
 		}
 
